@@ -251,6 +251,10 @@ DoMakeCorrelated(st, op) ==
             THEN IF op.ok THEN MakeDependent(st, op, "correlated")
                  ELSE Fail(st, {"EINVAL"})
        ELSE IF ~ValidGrid(op.sfv) THEN Fail(st, {"EINVAL"})
+       (* the sigma frequencies must overlap those of a vector parameter   *)
+       (* referred to by other                                             *)
+       ELSE IF Disjoint(VGrid(P, op.other), op.sfv[1], op.sfv[Len(op.sfv)])
+            THEN Fail(st, {"EINVAL"})
        ELSE IF ~op.ok THEN MustOk(st)
        ELSE MakeDependentG(st, op, "correlated", op.sfv)
 
